@@ -70,6 +70,15 @@ var witnessCases = [][]string{
 	{"dv/1", "bin:fffe00/24/8", "O(display_bytes=n:1;line_bytes=n:1000000)"},
 	{"protobuf_widevine/0", "A(n:16;n:0)"},
 	{"from_protobuf_widevine/0", "bin:1000/16/8"},
+	{"to_xml/1", "O(=s:78)", "O(attribute_prefix=s:-)"},
+	{"to_xml/1", "O(a=O(=s:78;@=s:79))", "O(attribute_prefix=s:-)"},
+	{"to_xml/1", "O(a=O(@@b=s:78))", "O(attribute_prefix=s:4040)"},
+	{"from_radix/1", "s:39", "n:2"},
+	{"from_radix/1", "s:6666", "n:10"},
+	{"from_radix/1", "s:-", "n:10"},
+	{"to_radix/1", "n:0", "n:1"},
+	{"to_radix/1", "n:5", "f:1p-1"},
+	{"to_radix/1", "n:5", "null"},
 	{"_stdio_read/2", "null", "s:737464696e", "n:0"},
 	{"_stdio_read/2", "null", "s:737464696e", "n:16"},
 	{"_stdio_read/2", "null", "s:737464696e", "n:-1"},
